@@ -399,18 +399,20 @@ fn run_case(case: &Value) -> Value {
             break;
         }
         if want_snap {
-            let types = catch_unwind(AssertUnwindSafe(|| dump_types(&space, false)));
+            let types = catch_unwind(AssertUnwindSafe(|| dump_types(&space, true)));
             let r = render(&space);
-            let names = r
+            let parsed = r
                 .tokens
                 .as_ref()
-                .and_then(|t| syn::parse_str::<syn::File>(t).ok())
-                .map(|f| facts::item_names(&f));
+                .and_then(|t| syn::parse_str::<syn::File>(t).ok());
+            let names = parsed.as_ref().map(facts::item_names);
+            let keys = parsed.as_ref().map(facts::item_keys);
             snaps.push(json!({
                 "types": types.ok(),
                 "render": r.status,
                 "render_msg": r.msg,
                 "items": names,
+                "item_keys": keys,
                 "tokens_hash": r.tokens.as_ref().map(|t| hash_str(t)),
             }));
         }
